@@ -258,6 +258,54 @@ pub fn c01(ctx: &mut Ctx) {
         }
     }
 
+    // ---- M1(g): very wide operand lists in which nothing decides early ---------------------------
+    // (a recursive rewrite of a lazy operator's loop is invisible until the list is long enough)
+    idx += 1;
+    if ctx.mine(idx) {
+        for n in [20_000usize, 100_000, 400_000] {
+            let falsy = vec![json!(false); n];
+            let truthy = vec![json!(1); n];
+            let zero_one: Vec<Value> = (0..n).map(|i| if i % 2 == 0 { json!(0) } else { json!("b") }).collect();
+            for rule in [json!({ "if": falsy }), json!({ "?:": zero_one }), json!({ "or": falsy }), json!({ "and": truthy }), json!({ "+": truthy }), json!({ "cat": truthy }), json!({ "merge": truthy }), json!({ "max": truthy }),
+                         json!({"missing": (0..n.min(100_000)).map(|i| json!(format!("k{}", i))).collect::<Vec<_>>()})] {
+                total(ctx, "c01.apply", "wide-lazy", &rule, &Value::Null);
+            }
+            let arr = Value::Array(vec![json!(0); n]);
+            for rule in [json!({"all": [{"var": ""}, {"!": [{"var": ""}]}]}), json!({"none": [{"var": ""}, {"var": ""}]}), json!({"filter": [{"var": ""}, {"var": ""}]}), json!({"map": [{"var": ""}, {"var": ""}]}), json!({"reduce": [{"var": ""}, {"var": "accumulator"}, 0]})] {
+                total(ctx, "c01.apply", "wide-lazy", &rule, &arr);
+            }
+        }
+    }
+    // ---- M1(h): error paths that quote their operands --------------------------------------------
+    // big multi-byte operands in every operator position: whatever an error message quotes,
+    // truncates or measures, some alignment puts a character boundary in the wrong place
+    for (si, size) in [1500usize, 20_000, 150_000].iter().enumerate() {
+        for k in 0..4usize {
+            idx += 1;
+            if !ctx.mine(idx) {
+                continue;
+            }
+            let body: String = std::iter::repeat("😀日é").take(size / 9).collect();
+            let s = format!("{}{}", "a".repeat(k), body);
+            let big_s = json!(s);
+            let big_a = json!([s, [s], 1]);
+            let big_o = json!({ "k": s, "j": [s] });
+            let big_key_o = { let mut m = serde_json::Map::new(); m.insert(s.clone(), json!(1)); Value::Object(m) };
+            let data = json!({"s": big_s, "a": big_a, "o": big_o, "ko": big_key_o});
+            for op in ops.iter() {
+                for (vname, lit) in [("s", &big_s), ("a", &big_a), ("o", &big_o), ("ko", &big_key_o)] {
+                    let v = json!({ "var": vname });
+                    for rule in [json!({ *op: [v] }), json!({ *op: [v, 1] }), json!({ *op: [1, v] }), json!({ *op: [v, v] }), json!({ *op: ["x", 1, v] }), json!({ *op: [v, 1, 1] }), json!({ *op: [[1], v, v] }), json!({ *op: v })] {
+                        total(ctx, "c01.apply", ["error-echo:1.5KB", "error-echo:20KB", "error-echo:150KB"][si], &rule, &data);
+                    }
+                    if k == 0 && si == 0 {
+                        total(ctx, "c01.apply", "error-echo:literal", &json!({ *op: [lit, 1] }), &data);
+                    }
+                }
+            }
+        }
+    }
+
     // ---- M1(b): random trees -------------------------------------------------------------
     let n = ctx.budget(20_000, 3_000_000);
     let mut g = RuleGen::new();
